@@ -26,6 +26,10 @@ fn main() {
     };
     if id == "bench" { checks::bench(); return; }
     if id == "bench2" { checks::bench2(); return; }
+    if let Ok(f) = std::env::var("KV_TRACE") {
+        // debugging aid: the library's own log, e.g. KV_TRACE=warn
+        let _ = tracing_subscriber::fmt().with_env_filter(tracing_subscriber::EnvFilter::new(f)).with_writer(std::io::stderr).try_init();
+    }
     let rest = &args[2..];
     checks::dispatch(&id, rest);
 }
